@@ -41,8 +41,8 @@ const SPEC: Spec = Spec {
         "order in which receive serves several connections is unspecified (R1); borrow limit per (pending response, server) stream or per pending response (R2); PendingResponse::is_connected unspecified while a server never got the request into its hands (R3)",
         "inputs that run into an open known finding are left out op by op and counted (excluded_by_known_finding); the probe parts keep the findings visible",
     ],
-    watchdog_quick_s: 900,
-    watchdog_thorough_s: 7200,
+    watchdog_quick_s: 1800,
+    watchdog_thorough_s: 14400,
 };
 
 fn ro() -> RunOpts {
@@ -77,6 +77,10 @@ fn exhaustive(ctx: &mut Ctx, open: &Open) {
     let mut grid = vec![];
     for buf in [1usize, 2] {
         for borrow in [1usize, 2] {
+            // quick tier: a borrow limit above the buffer size adds nothing new
+            if ctx.quick() && borrow > buf {
+                continue;
+            }
             for resp_overflow in [false, true] {
                 for faf in [false, true] {
                     grid.push(Cfg { max_clients: 1, max_servers: 1, max_active: 2, buf, borrow, req_overflow: true, resp_overflow, faf, loan_req: 1, loan_resp: 1 });
@@ -84,6 +88,7 @@ fn exhaustive(ctx: &mut Ctx, open: &Open) {
             }
         }
     }
+    let ncfg = grid.len();
     let open2 = open.clone();
     let cases = grid.into_iter().flat_map(move |cfg| {
         let o = open2.clone();
@@ -102,7 +107,7 @@ fn exhaustive(ctx: &mut Ctx, open: &Open) {
     let r = ro();
     ctx.enumerate(
         "exhaustive.local",
-        &format!("all applicable op sequences of length {len} (every prefix checked) over a 13-op alphabet, 1 client x 1 server x 2 overlapping requests, 16 configurations x 2 prologues"),
+        &format!("all applicable op sequences of length {len} (every prefix checked) over a 13-op alphabet, 1 client x 1 server x 2 overlapping requests, {ncfg} configurations x 2 prologues"),
         cases,
         |case: &Case, obs: &mut Obs| {
             let s = run_case(Variant::Local, case, &r, open, obs)?;
